@@ -181,8 +181,11 @@ def shard_seed(shard, acc):
 
 
 # the code point inside a value, at the very END of the text (the last printed line), inside a section name, at the
-# very start, between key and value, inside a section type
-UNI_CONTEXTS = [("k v", "w"), ("k v", ""), ("<a b", ">\nk v\n</a>"), ("", "k v"), ("k", " v"), ("<a", ">\n</a")]
+# very start; at the start of a key line that is NOT the first line of the text but IS the first line of its
+# serialisation (the printer drops comments and writes keys before sections, so a line changes its position: anything
+# that treats the first line specially shows only there); between key and value, inside a section type
+UNI_CONTEXTS = [("k v", "w"), ("k v", ""), ("<a b", ">\nk v\n</a>"), ("", "k v"), ("# c\n", "k v"), ("<a/>\n", "k v\n"),
+                ("k", " v"), ("<a", ">\n</a")]
 
 
 def shard_unicode(shard, acc):
@@ -200,7 +203,7 @@ def shard_unicode(shard, acc):
 def run(tier):
     L = 4 if tier == "quick" else 5
     n = 3 if tier == "quick" else 4
-    nctx = 4 if tier == "quick" else 6
+    nctx = 6 if tier == "quick" else 8
     A = G.LINE_ALPHABET_C17
     run = core.Run(
         "C17", tier, "exploration",
